@@ -183,7 +183,7 @@ func (e *Eth) Plan(c *Ctx) []hist.TxSpec {
 		e.Tag = "t"
 	}
 	us := c.W.Users
-	var out []hist.TxSpec
+	var out, tail []hist.TxSpec
 	witnesses := WitnessOrder(c.S)
 	if len(witnesses) == 0 {
 		return nil
@@ -234,7 +234,9 @@ func (e *Eth) Plan(c *Ctx) []hist.TxSpec {
 			if !op.dupDone {
 				op.dupDone = true
 				if op.kind == "lock" || op.kind == "redeem" || (e.Dupes && op.kind == "erclock") {
-					out = append(out, e.submit(c, op, "resubmission after the tracker finished ("+store+")"))
+					// (placed after everything else this script sends in the block: the refused resubmission is then
+					// the last transaction of the block that touches the tracker stores)
+					tail = append(tail, e.submit(c, op, "resubmission after the tracker finished ("+store+")"))
 					if store == "ethfailed" && op.kind == "lock" {
 						op.resub = true // a failed lock may legitimately be retried
 					}
@@ -311,7 +313,7 @@ func (e *Eth) Plan(c *Ctx) []hist.TxSpec {
 			}
 		}
 	}
-	return out
+	return append(out, tail...)
 }
 
 func (e *Eth) Observe(c *Ctx, blk *hist.Block) {}
